@@ -168,6 +168,14 @@ def solve_one(idx):
         else:
             discharge([o], 2500 if hurry else r.timeout_ms,
                       use_cvc5=not hurry, refute=not hurry)
+            if o.status == "unknown" and ident0 in _GEN.get("known", ()) \
+                    and not listed_clauses:
+                # thorough tier: a listed finding that is still not
+                # provable and for which no counter-model was found within
+                # the budget stays the listed finding (not 'undecided')
+                o.status = "refuted"
+                o.note = ("listed known finding: still not provable; no "
+                          "counter-model within the budget")
     except Exception as e:
         o.status, o.note = "unknown", f"solver error: {e!r}"
     ident = f"{iname(r.contract)}::{stable_name(o)}"
